@@ -74,6 +74,17 @@ def native_check(kind, arch, env=None, seed=0):
         for a, b in zip(g1, g2):
             if not torch.allclose(a, b, rtol=1e-9, atol=1e-11):
                 fails.append(("positive phase depends on row order", None))
+    if bases is not None:
+        # history: the bases array of an earlier call has been freed and another one - same shape, other rows - sits where
+        # it was; gradients are those of the bases at hand (compared with the sum of the single-row gradients)
+        first = np.array([list(b) for b in bases])
+        other_rows = [strings[i] for i in rng.integers(0, len(strings), size=B)]
+        b2 = C.at_freed_address(lambda: first.copy(), lambda a: st.gradient(samples, a), lambda: np.array([list(b) for b in other_rows]))
+        if b2 is not None:
+            g_all = st.gradient(samples, b2)
+            ref = [sum(st.gradient(samples[i], np.array(list(other_rows[i])))[j] for i in range(B)) for j in range(len(g_all))]
+            if any(not torch.allclose(a, b, rtol=1e-9, atol=1e-11) for a, b in zip(g_all, ref)):
+                fails.append(("gradient of a batch whose bases array sits at the address of a freed one != sum of the single-row gradients", None))
     if kind == "positive":
         try:
             g3 = st.compute_exact_grads(samples, space)
